@@ -159,12 +159,27 @@ func awaitPandoraTermination(pandora *engine.Engine, gracefulShutdown func(), er
 			log.Fatal("Unexpected signal received. Quiting.", zap.Stringer("signal", sig))
 		}
 
+		interruptDeadline := time.After(interruptTimeout)
 		select {
-		case <-time.After(interruptTimeout):
+		case <-interruptDeadline:
 			log.Fatal("Interrupt timeout exceeded")
 		case sig := <-sigs:
 			log.Fatal("Another signal received. Quiting.", zap.Stringer("signal", sig))
 		case err := <-errs:
+			// Engine.Run returns as soon as its context is canceled, while started tasks are still
+			// finishing: aggregators drain reported samples, flush and close the results.
+			tasksFinished := make(chan struct{})
+			go func() {
+				pandora.Wait()
+				close(tasksFinished)
+			}()
+			select {
+			case <-interruptDeadline:
+				log.Fatal("Interrupt timeout exceeded")
+			case sig := <-sigs:
+				log.Fatal("Another signal received. Quiting.", zap.Stringer("signal", sig))
+			case <-tasksFinished:
+			}
 			log.Fatal("Engine interrupted", zap.Error(err))
 		}
 
